@@ -12,5 +12,5 @@ go test -vet=off -count=1 "$@" "./$PKG/" > /tmp/seedcf.$$.clean.log 2>&1; echo "
 git apply "$PATCH" || exit 2
 go test -vet=off -count=1 "$@" "./$PKG/" > /tmp/seedcf.$$.mut.log 2>&1; echo "demo with change: rc=$? (want non-zero)"; grep -m3 "^\s*---\|FAIL\|_test.go" /tmp/seedcf.$$.mut.log | head -4
 rm "$PKG/zz_seed_demo_test.go"
-go test -vet=off -count=1 ./... > /tmp/seedcf.$$.suite.log 2>&1
+env -u GODEBUG go test -vet=off -count=1 ./... > /tmp/seedcf.$$.suite.log 2>&1
 echo "suite with change: failing packages: $(grep '^FAIL' /tmp/seedcf.$$.suite.log | grep -v '^FAIL$' | tr '\n' ' ')"; grep "^--- FAIL" /tmp/seedcf.$$.suite.log | sort | uniq | tr '\n' ' '; echo
